@@ -9,6 +9,7 @@ exit 3  checker error (conformance failure, engine crash, vacuous obligation, in
 from __future__ import annotations
 
 import fnmatch
+import re
 import glob
 import hashlib
 import importlib
@@ -195,10 +196,12 @@ def obligation_id(prop, qualname, shape, clause):
 
 def match_finding(findings, prop, qualname, shape, clause):
     for f in findings:
-        if f['property'] != prop:
+        props = f['property'] if isinstance(f['property'], list) else [f['property']]
+        if prop not in props:
             continue
         for pat in f['obligations']:
-            if fnmatch.fnmatchcase(f'{qualname}/{clause}[{shape}]', pat) or fnmatch.fnmatchcase(f'{qualname}[{shape}]', pat):
+            rx = re.compile('^' + '.*'.join(re.escape(x) for x in pat.split('*')) + '$')
+            if rx.match(f'{qualname}/{clause}[{shape}]') or rx.match(f'{qualname}[{shape}]'):
                 return f
     return None
 
